@@ -120,7 +120,9 @@ func main() {
 	if *prop == "all" {
 		ids = rules.IDs()
 	}
-	loadRefStems(*verif)
+	if !*wstems {
+		loadRefStems(*verif)
+	}
 	allCtx := map[string]*core.Ctx{}
 	exit := 0
 	for _, id := range ids {
@@ -175,6 +177,16 @@ func main() {
 		} else {
 			c = runAt(p)
 			extra["normal_form"] = normalForm(p)
+			// an obligation kind of the reference list that is not examined at all on this tree is a rule that
+			// lost its anchor (the construct moved into a helper, or is gone): recorded as undecided, which sends
+			// the property through the normal forms like any other open obligation
+			if refStemsLoaded && len(c.Finish(kf).Violations) == 0 {
+				miss := missingStems(refStems[id], c)
+				sort.Strings(miss)
+				for _, m := range miss {
+					c.Unk("coverage", "not-examined/"+strings.TrimPrefix(m, id+"/"), "", "no obligation of kind "+m+" was produced on this tree (the rule found nothing to examine): the property is not decided")
+				}
+			}
 			if len(c.Finish(kf).Violations) > 0 {
 				// a helper-extraction refactoring hides constructs from per-function rules: retry on the
 				// inlining normal forms (semantics-preserving); the first form on which every obligation is
